@@ -7,11 +7,19 @@
    marks of the commands that started; exit status; whether the configuration text was on
    stdout) - and the text its __config__ writes together with the complete stdout of the run.  Evaluated by vm_compute in the generated cases files.
 
-   [exotic] marks the separate stream of binding names the model does not speak about
-   (blanks, glob characters, quotes, ...): those
-   cases are never judged; how many of them disagree with the model / fail the
-   predicate is reported through trigger_XMODEL / trigger_XSPEC for triage. *)
-From Verif Require Import Common C19_Model C19_Spec.
+   Binding names, group names and versions are arbitrary strings (blanks, tabs, glob characters,
+   quotes, backslashes, $, empty) in every position of the array: the model (C19_Model, the code
+   after a686454) takes a name as one candidate whatever it contains, and every case is judged by
+   PW (C19_WSpec: PC + own_context) - the names that hook.sh mishandled before a686454 included,
+   as regression cases.  The harness runs every hook in an empty working directory.
+
+   [exotic] marks cases whose context file the harness could not read back into [ctx] (a
+   non-string member); together with strings holding a NUL or a newline (a newline still
+   separates two candidate lines; command substitution and the trace file do not carry them)
+   they are outside the model: never judged; how many of them disagree with the model / fail
+   the predicate is reported through trigger_XMODEL / trigger_XSPEC for triage. *)
+From Coq Require Import String.
+From Verif Require Import Common C19_Model C19_Spec C19_WSpec.
 
 (* one handler function of the generated script:
      function NAME() { <trace line>; case $INDEX in i[)] <arm i> [return s_i];; ... default[)] <body> [return s];; esac; }
@@ -81,6 +89,17 @@ Definition inputC_of (c : case) : inputC := mkInputC (inputB_of c) (written (k_c
 Definition model_obs (c : case) : obsC :=
   runC (k_args c) (defined_of c) (bodies_of c) (k_ctxs c) (written (k_config c)).
 
+(* strings the model speaks about: no NUL, no newline *)
+Definition clean_bytes (o : option bytes) : bool :=
+  match o with
+  | None => true
+  | Some s => forallb (fun x => negb (N.eqb x 0) && negb (N.eqb x 10)) s
+  end.
+Definition clean_ctx (c : ctx) : bool :=
+  clean_bytes (c_binding c) && clean_bytes (c_type c) && clean_bytes (c_event c) &&
+  clean_bytes (c_group c) && clean_bytes (c_from c) && clean_bytes (c_to c).
+Definition outside (c : case) : bool := k_exotic c || negb (forallb clean_ctx (k_ctxs c)).
+
 Definition observed (c : case) : obsC := mkObsC (k_obs c) (written (k_stdout c)).
 
 Definition obs_eqb (a b : obs) : bool :=
@@ -99,18 +118,18 @@ Definition obsC_eqb (a b : obsC) : bool :=
 
 Definition agrees (c : case) : bool := obsC_eqb (model_obs c) (observed c).
 Definition spec_ok (c : case) : bool :=
-  negb (in_domain (input_of c)) || PC (inputC_of c) (observed c).
+  negb (in_domain (input_of c)) || PW (inputC_of c) (observed c).
 
 Definition mismatches (cs : list case) : list N :=
-  indices_where (fun c => negb (k_exotic c) && negb (agrees c)) cs.
+  indices_where (fun c => negb (outside c) && negb (agrees c)) cs.
 Definition spec_violations (cs : list case) : list N :=
-  indices_where (fun c => negb (k_exotic c) && negb (spec_ok c)) cs.
+  indices_where (fun c => negb (outside c) && negb (spec_ok c)) cs.
 
-(* triage counters of the exotic stream (not findings) *)
+(* triage counters of the cases outside the model (not findings) *)
 Definition trigger_XMODEL (cs : list case) : list N :=
-  indices_where (fun c => k_exotic c && negb (agrees c)) cs.
+  indices_where (fun c => outside c && negb (agrees c)) cs.
 Definition trigger_XSPEC (cs : list case) : list N :=
-  indices_where (fun c => k_exotic c && negb (spec_ok c)) cs.
+  indices_where (fun c => outside c && negb (spec_ok c)) cs.
 (* cases inside the trigger T of the recorded finding F20 (reserved binding name): these
    are judged like any other case; a violation among them is excused by the finding *)
 Definition trigger_F20 (cs : list case) : list N :=
